@@ -6601,6 +6601,10 @@ class CodegenCtx:
         # Find all transitions that operate on End
         unconditional_end_transition = state[DFTransition.End]
 
+        # An Else that takes a byte (the restart of a wait) stands for data: it cannot take end-of-input, and neither are its actions due there.
+        if unconditional_end_transition and DFTransition.End not in unconditional_end_transition.on_values and not unconditional_end_transition.is_fallthrough:
+            unconditional_end_transition = None
+
         # If the program has already reached its end here, running off it at end-of-input is not a mismatch: don't follow the error path.
         if unconditional_end_transition and unconditional_end_transition.error_handling and state in self.dfa.accepting_states:
             unconditional_end_transition = None
